@@ -891,3 +891,473 @@ Proof.
   - apply map_ext_in'. intros u _. apply Hnb.
   - apply map_ext_in'. intros u _. apply Hdg.
 Qed.
+
+(* ====================================================================== 6. class DirectedGraph *)
+Definition d_abs (s : dstate) : agraph := mkA (d_n s) 0 (d_es s).
+
+Record d_inv (s : dstate) : Prop := mk_d_inv {
+  di_n : 0 <= d_n s;
+  di_lenp : length (d_pred s) = S (Z.to_nat (d_n s));
+  di_lens : length (d_succ s) = S (Z.to_nat (d_n s));
+  di_nodup : NoDup (d_es s);
+  di_range : forall u v, In (u, v) (d_es s) -> 1 <= u <= d_n s /\ 1 <= v <= d_n s;
+  di_m : d_m s = Z.of_nat (length (d_es s));
+  di_dag : d_dag s = forallb ltp (d_es s);
+  di_succ : PW (fun u => 0 <= u <= d_n s) (adj_at (d_succ s)) (fun u v => In (u, v) (d_es s));
+  di_pred : PW (fun u => 0 <= u <= d_n s) (adj_at (d_pred s)) (fun v u => In (u, v) (d_es s))
+}.
+
+Lemma d_init_ok n s : d_init n = Some s -> d_inv s /\ d_abs s = a_init KDirected n 0.
+Proof.
+  unfold d_init. destruct (n <? 0) eqn:E; [discriminate |]. intros H; inversion H; subst s; clear H.
+  split; [| reflexivity]. constructor; cbn [d_n d_m d_es d_dag d_pred d_succ].
+  - lia.
+  - rewrite repeat_length. lia.
+  - rewrite repeat_length. lia.
+  - constructor.
+  - intros u v [].
+  - reflexivity.
+  - reflexivity.
+  - intros u Hu. rewrite adj_at_repeat. split; [constructor | cbn; tauto].
+  - intros u Hu. rewrite adj_at_repeat. split; [constructor | cbn; tauto].
+Qed.
+
+Lemma d_init_refused n : d_init n = None <-> n < 0.
+Proof. unfold d_init. destruct (n <? 0) eqn:E; split; intros H; try discriminate; try reflexivity; lia. Qed.
+
+Lemma d_add_edge_ok s u v : d_inv s ->
+  d_inv (fst (d_add_edge s u v)) /\
+  d_abs (fst (d_add_edge s u v)) = fst (a_add KDirected (d_abs s) u v) /\
+  snd (d_add_edge s u v) = snd (a_add KDirected (d_abs s) u v) /\
+  (snd (d_add_edge s u v) = Ok \/ d_add_edge s u v = (s, ValueError)).
+Proof.
+  intros I. unfold d_add_edge, a_add.
+  change (a_valid KDirected (d_abs s) u v) with (d_valid s u v).
+  destruct (d_valid s u v) eqn:V; cbn [negb]; [| cbn [fst snd]; auto].
+  assert (Hr : 1 <= u <= d_n s /\ 1 <= v <= d_n s) by (unfold d_valid, between in V; lia).
+  cbn [a_norm d_abs a_E a_n a_r]. unfold set_add.
+  destruct (set_mem (u, v) (d_es s)) eqn:M; [cbn [fst snd]; auto |].
+  apply set_mem_nIn in M.
+  destruct I as [In_ Ilp Ils Ind Irng Im Idag Isucc Ipred].
+  rewrite py_pos_inrange by lia. rewrite py_pos_inrange by lia. cbn [fst snd].
+  split; [| auto].
+  constructor; cbn [d_n d_m d_es d_dag d_pred d_succ]; auto.
+  - rewrite set_nth_length; auto.
+  - rewrite set_nth_length; auto.
+  - constructor; auto.
+  - intros x y [H | H]; [inversion H; subst; lia | auto].
+  - cbn [length]. lia.
+  - cbn [forallb]. rewrite ltp_pair, <- Idag. destruct (u >=? v) eqn:E1; destruct (u <? v) eqn:E2; try reflexivity; lia.
+  - apply (PW_insert _ (adj_at (d_succ s)) (fun x y => In (x, y) (d_es s)) u v); auto.
+    + intros x Hx. apply adj_at_set_nth; lia.
+    + intros a b. cbn [In]. split.
+      * intros [H | H]; [inversion H; subst; right; split; reflexivity | left; auto].
+      * intros [H | [H1 H2]]; [right; auto | subst; left; reflexivity].
+  - apply (PW_insert _ (adj_at (d_pred s)) (fun y x => In (x, y) (d_es s)) v u); auto.
+    + intros x Hx. apply adj_at_set_nth; lia.
+    + intros a b. cbn [In]. split.
+      * intros [H | H]; [inversion H; subst; right; split; reflexivity | left; auto].
+      * intros [H | [H1 H2]]; [right; auto | subst; left; reflexivity].
+Qed.
+
+Lemma d_step_ok s o : d_inv s ->
+  d_inv (fst (d_step s o)) /\
+  d_abs (fst (d_step s o)) = fst (a_step KDirected (d_abs s) o) /\
+  snd (d_step s o) = snd (a_step KDirected (d_abs s) o).
+Proof.
+  intros I. destruct o as [u v | u v | k | l]; cbn [d_step a_step a_remove a_raise fst snd]; auto.
+  - destruct (d_add_edge_ok s u v I) as [H1 [H2 [H3 _]]]. auto.
+  - apply (add_from_refines d_inv d_abs KDirected d_add_edge); auto.
+    intros s0 u v I0. destruct (d_add_edge_ok s0 u v I0) as [H1 [H2 [H3 _]]]. auto.
+Qed.
+
+(* the only outcomes: Ok, ValueError, and NoMethod exactly for the two methods the class lacks *)
+Lemma d_step_outcome s o : d_inv s ->
+  match o with
+  | RemoveEdge _ _ | RaiseN _ => d_step s o = (s, NoMethod)
+  | _ => snd (d_step s o) = Ok \/ snd (d_step s o) = ValueError
+  end.
+Proof.
+  intros I. destruct o as [u v | u v | k | l]; cbn [d_step]; auto.
+  - destruct (d_add_edge_ok s u v I) as [_ [_ [_ [H | H]]]]; [auto | rewrite H; auto].
+  - revert s I. induction l as [| [u v] r IH]; intros s I; cbn [add_from]; [auto |].
+    destruct (d_add_edge_ok s u v I) as [I' [_ [_ [H | H]]]].
+    + destruct (d_add_edge s u v) as [s' o]. cbn [fst snd] in *. subst o. apply IH; auto.
+    + rewrite H. auto.
+Qed.
+
+Lemma d_step_error s o : d_inv s -> snd (d_step s o) <> Ok ->
+  (forall l, o <> AddEdgesFrom l) -> fst (d_step s o) = s.
+Proof.
+  intros I Hne Hno. destruct o as [u v | u v | k | l]; cbn [d_step fst] in *; auto.
+  - destruct (d_add_edge_ok s u v I) as [_ [_ [_ [H | H]]]]; [congruence | rewrite H; reflexivity].
+  - exfalso. apply (Hno l). reflexivity.
+Qed.
+
+Lemma d_add_from_refused s l1 u v l2 : d_inv s ->
+  snd (add_from d_add_edge s l1) = Ok ->
+  d_valid (fst (add_from d_add_edge s l1)) u v = false ->
+  add_from d_add_edge s (l1 ++ (u, v) :: l2) = (fst (add_from d_add_edge s l1), ValueError).
+Proof.
+  intros I H1 Hv. rewrite add_from_app by auto. cbn [add_from].
+  unfold d_add_edge at 1. rewrite Hv. reflexivity.
+Qed.
+
+Lemma d_run_ok ops : forall s, d_inv s ->
+  d_inv (d_run s ops) /\ d_abs (d_run s ops) = a_run KDirected (d_abs s) ops /\
+  outcomes d_step s ops = outcomes (a_step KDirected) (d_abs s) ops.
+Proof.
+  induction ops as [| o r IH]; intros s I; [cbn; auto |].
+  destruct (d_step_ok s o I) as [H1 [H2 H3]].
+  destruct (IH (fst (d_step s o)) H1) as [J1 [J2 J3]].
+  split; [exact J1 | split].
+  - change (d_abs (d_run (fst (d_step s o)) r) = a_run KDirected (fst (a_step KDirected (d_abs s) o)) r).
+    rewrite <- H2. exact J2.
+  - cbn [outcomes]. rewrite H3, J3, H2. reflexivity.
+Qed.
+
+(* ---- views *)
+Lemma d_view_count s : d_inv s -> d_m s = Z.of_nat (length (a_E (d_abs s))).
+Proof. intros I. apply (di_m s I). Qed.
+
+Lemma d_view_has s u v : d_has_edge s u v = a_has KDirected (d_abs s) u v.
+Proof. reflexivity. Qed.
+
+Lemma d_view_dag s : d_inv s -> d_dag s = forallb ltp (a_E (d_abs s)).
+Proof. intros I. apply (di_dag s I). Qed.
+
+Lemma d_view_dag_iff s : d_inv s -> (d_dag s = true <-> forall u v, In (u, v) (a_E (d_abs s)) -> u < v).
+Proof.
+  intros I. rewrite d_view_dag by auto. rewrite forallb_forall. split.
+  - intros H u v Hin. specialize (H _ Hin). rewrite ltp_pair in H. lia.
+  - intros H [u v] Hin. rewrite ltp_pair. specialize (H u v Hin). lia.
+Qed.
+
+Lemma d_view_edges s : d_inv s ->
+  lex_sorted (d_edges s) /\ forall e, In e (d_edges s) <-> In e (a_E (d_abs s)).
+Proof.
+  intros I. pose proof (di_succ s I) as Isucc. unfold d_edges. split.
+  - apply (lex_sorted_flat_map (adj_at (d_succ s))).
+    + apply zrange_sorted.
+    + intros u Hu. apply zrange_In in Hu. apply Isucc. lia.
+  - intros [x y]. cbn [d_abs a_E]. rewrite (in_flat_map_pair (adj_at (d_succ s))), zrange_In. split.
+    + intros [Hx Hy]. apply (Isucc x); [lia | auto].
+    + intros Hin. destruct (di_range s I x y Hin) as [Hx Hy]. split; [lia |]. apply (Isucc x); [lia | auto].
+Qed.
+
+Definition swap (e : Z * Z) : Z * Z := (snd e, fst e).
+
+Lemma map_swap_flat_map (f : Z -> list Z) us :
+  map swap (flat_map (fun d => map (fun s => (s, d)) (f d)) us) = flat_map (fun d => map (pair d) (f d)) us.
+Proof.
+  induction us as [| d us IH]; [reflexivity |]. cbn [flat_map]. rewrite map_app, map_map, IH. reflexivity.
+Qed.
+
+(* the second listing is sorted by (destination, source) *)
+Lemma d_view_edges_by_dest s : d_inv s ->
+  lex_sorted (map swap (d_edges_by_dest s)) /\ forall e, In e (d_edges_by_dest s) <-> In e (a_E (d_abs s)).
+Proof.
+  intros I. pose proof (di_pred s I) as Ipred. unfold d_edges_by_dest. split.
+  - rewrite map_swap_flat_map. apply (lex_sorted_flat_map (adj_at (d_pred s))).
+    + apply zrange_sorted.
+    + intros u Hu. apply zrange_In in Hu. apply Ipred. lia.
+  - intros [x y]. cbn [d_abs a_E]. rewrite in_flat_map. split.
+    + intros [d [Hd H]]. apply in_map_iff in H. destruct H as [x' [E Hin]]. inversion E; subst.
+      apply zrange_In in Hd. apply (Ipred y); [lia | auto].
+    + intros Hin. destruct (di_range s I x y Hin) as [Hx Hy]. exists y. split; [apply zrange_In; lia |].
+      apply in_map_iff. exists x. split; auto. apply (Ipred y); [lia | auto].
+Qed.
+
+Lemma d_view_successors s u : d_inv s ->
+  match d_successors s u with
+  | None => ~ (1 <= u <= d_n s)
+  | Some l => 1 <= u <= d_n s /\ sorted l /\ (forall v, In v l <-> a_has KDirected (d_abs s) u v = true) /\
+              d_out_degree s u = Some (Z.of_nat (length l))
+  end.
+Proof.
+  intros I. unfold d_successors, d_out_degree. destruct (between 1 u (d_n s)) eqn:B.
+  - assert (Hu : 1 <= u <= d_n s) by (unfold between in B; lia).
+    destruct (di_succ s I u) as [Hs Hin]; [lia |].
+    split; [auto | split; [auto | split; [| reflexivity]]].
+    intros v. rewrite Hin. unfold a_has. cbn [a_norm d_abs a_E]. symmetry. apply set_mem_In.
+  - unfold between in B. lia.
+Qed.
+
+Lemma d_view_predecessors s v : d_inv s ->
+  match d_predecessors s v with
+  | None => ~ (1 <= v <= d_n s)
+  | Some l => 1 <= v <= d_n s /\ sorted l /\ (forall u, In u l <-> a_has KDirected (d_abs s) u v = true) /\
+              d_in_degree s v = Some (Z.of_nat (length l))
+  end.
+Proof.
+  intros I. unfold d_predecessors, d_in_degree. destruct (between 1 v (d_n s)) eqn:B.
+  - assert (Hv : 1 <= v <= d_n s) by (unfold between in B; lia).
+    destruct (di_pred s I v) as [Hs Hin]; [lia |].
+    split; [auto | split; [auto | split; [| reflexivity]]].
+    intros u. rewrite Hin. unfold a_has. cbn [a_norm d_abs a_E]. symmetry. apply set_mem_In.
+  - unfold between in B. lia.
+Qed.
+
+Lemma d_duplicate_noop s u v : d_has_edge s u v = true -> d_valid s u v = true -> d_add_edge s u v = (s, Ok).
+Proof. intros H V. unfold d_add_edge. rewrite V. cbn [negb]. unfold d_has_edge in H. rewrite H. reflexivity. Qed.
+
+Lemma forallb_same_set {A} (f : A -> bool) l1 l2 : (forall x, In x l1 <-> In x l2) -> forallb f l1 = forallb f l2.
+Proof.
+  intros H. apply bool_eq_iff. rewrite !forallb_forall. split; intros G x Hx; apply G; apply H; auto.
+Qed.
+
+Lemma d_views_determined s1 s2 : d_inv s1 -> d_inv s2 -> d_n s1 = d_n s2 ->
+  (forall e, In e (a_E (d_abs s1)) <-> In e (a_E (d_abs s2))) -> d_view s1 = d_view s2.
+Proof.
+  intros I1 I2 Hn HE.
+  assert (Hhas : forall u v, a_has KDirected (d_abs s1) u v = a_has KDirected (d_abs s2) u v).
+  { intros u v. unfold a_has. apply bool_eq_iff. rewrite !set_mem_In. apply HE. }
+  assert (Hsu : forall u, d_successors s1 u = d_successors s2 u /\ d_out_degree s1 u = d_out_degree s2 u).
+  { intros u. pose proof (d_view_successors s1 u I1) as N1. pose proof (d_view_successors s2 u I2) as N2.
+    unfold d_out_degree in *. unfold d_successors in *. rewrite <- Hn in *.
+    destruct (between 1 u (d_n s1)); [| auto].
+    destruct N1 as [_ [S1 [M1 _]]]. destruct N2 as [_ [S2 [M2 _]]].
+    assert (E : adj_at (d_succ s1) u = adj_at (d_succ s2) u).
+    { apply sorted_unique; auto. intros v. rewrite M1, M2, Hhas. tauto. }
+    rewrite E. auto. }
+  assert (Hpr : forall u, d_predecessors s1 u = d_predecessors s2 u /\ d_in_degree s1 u = d_in_degree s2 u).
+  { intros u. pose proof (d_view_predecessors s1 u I1) as N1. pose proof (d_view_predecessors s2 u I2) as N2.
+    unfold d_in_degree in *. unfold d_predecessors in *. rewrite <- Hn in *.
+    destruct (between 1 u (d_n s1)); [| auto].
+    destruct N1 as [_ [S1 [M1 _]]]. destruct N2 as [_ [S2 [M2 _]]].
+    assert (E : adj_at (d_pred s1) u = adj_at (d_pred s2) u).
+    { apply sorted_unique; auto. intros v. rewrite M1, M2, Hhas. tauto. }
+    rewrite E. auto. }
+  unfold d_view. rewrite <- Hn.
+  f_equal.
+  - rewrite (di_m s1 I1), (di_m s2 I2). f_equal.
+    apply NoDup_same_length; try (apply di_nodup; auto). exact HE.
+  - destruct (d_view_edges s1 I1) as [S1 M1]. destruct (d_view_edges s2 I2) as [S2 M2].
+    apply lex_sorted_unique; auto. intros e. rewrite M1, M2. apply HE.
+  - destruct (d_view_edges_by_dest s1 I1) as [S1 M1]. destruct (d_view_edges_by_dest s2 I2) as [S2 M2].
+    assert (E : map swap (d_edges_by_dest s1) = map swap (d_edges_by_dest s2)).
+    { apply lex_sorted_unique; auto. intros e. rewrite !in_map_iff. split; intros [x [Hx Hin]]; exists x; split; auto.
+      - apply M2. apply HE. apply M1. auto.
+      - apply M1. apply HE. apply M2. auto. }
+    apply (f_equal (map swap)) in E. rewrite !map_map in E.
+    rewrite (map_ext_in' (fun x => swap (swap x)) (fun x => x)) in E by (intros [a b] _; reflexivity).
+    rewrite (map_ext_in' (fun x => swap (swap x)) (fun x => x)) in E by (intros [a b] _; reflexivity).
+    rewrite !map_id in E. exact E.
+  - apply map_ext_in'. intros u _. apply map_ext_in'. intros v _. apply Hhas.
+  - apply map_ext_in'. intros u _. apply Hsu.
+  - apply map_ext_in'. intros u _. apply Hpr.
+  - apply map_ext_in'. intros u _. apply Hsu.
+  - apply map_ext_in'. intros u _. apply Hpr.
+  - rewrite (di_dag s1 I1), (di_dag s2 I2). apply forallb_same_set. exact HE.
+Qed.
+
+(* ====================================================================== 7. class BipartiteGraph *)
+Definition b_abs (s : bstate) : agraph := mkA (b_l s) (b_r s) (b_es s).
+
+Record b_inv (s : bstate) : Prop := mk_b_inv {
+  bi_l : 0 <= b_l s;
+  bi_r : 0 <= b_r s;
+  bi_nodup : NoDup (b_es s);
+  bi_range : forall u v, In (u, v) (b_es s) -> 1 <= u <= b_l s /\ 1 <= v <= b_r s;
+  bi_ladj : PW (fun _ => True) (fun u => dict_get u (b_ladj s)) (fun u v => In (u, v) (b_es s));
+  bi_radj : PW (fun _ => True) (fun v => dict_get v (b_radj s)) (fun v u => In (u, v) (b_es s))
+}.
+
+Lemma b_init_ok l r s : b_init l r = Some s -> b_inv s /\ b_abs s = a_init KBipartite l r.
+Proof.
+  unfold b_init. destruct ((l <? 0) || (r <? 0)) eqn:E; [discriminate |]. intros H; inversion H; subst s; clear H.
+  split; [| reflexivity]. constructor; cbn [b_l b_r b_ladj b_radj b_es].
+  - lia.
+  - lia.
+  - constructor.
+  - intros u v [].
+  - intros u _. cbn. split; [constructor | tauto].
+  - intros u _. cbn. split; [constructor | tauto].
+Qed.
+
+Lemma b_init_refused l r : b_init l r = None <-> l < 0 \/ r < 0.
+Proof. unfold b_init. destruct ((l <? 0) || (r <? 0)) eqn:E; split; intros H; try discriminate; try reflexivity; lia. Qed.
+
+Lemma b_add_edge_ok s u v : b_inv s ->
+  b_inv (fst (b_add_edge s u v)) /\
+  b_abs (fst (b_add_edge s u v)) = fst (a_add KBipartite (b_abs s) u v) /\
+  snd (b_add_edge s u v) = snd (a_add KBipartite (b_abs s) u v) /\
+  (snd (b_add_edge s u v) = Ok \/ b_add_edge s u v = (s, ValueError)).
+Proof.
+  intros I. unfold b_add_edge, a_add.
+  change (a_valid KBipartite (b_abs s) u v) with (b_valid s u v).
+  destruct (b_valid s u v) eqn:V; cbn [negb]; [| cbn [fst snd]; auto].
+  assert (Hr : 1 <= u <= b_l s /\ 1 <= v <= b_r s) by (unfold b_valid, between in V; lia).
+  cbn [a_norm b_abs a_E a_n a_r]. unfold set_add.
+  destruct (set_mem (u, v) (b_es s)) eqn:M; [cbn [fst snd]; auto |].
+  apply set_mem_nIn in M.
+  destruct I as [Il Ir Ind Irng Iladj Iradj].
+  cbv zeta. cbn [fst snd]. split; [| auto].
+  constructor; cbn [b_l b_r b_ladj b_radj b_es]; auto.
+  - constructor; auto.
+  - intros x y [H | H]; [inversion H; subst; lia | auto].
+  - apply (PW_insert _ (fun x => dict_get x (b_ladj s)) (fun x y => In (x, y) (b_es s)) u v); auto.
+    + intros x _. rewrite dict_get_set, !dict_get_default. reflexivity.
+    + intros a b. cbn [In]. split.
+      * intros [H | H]; [inversion H; subst; right; split; reflexivity | left; auto].
+      * intros [H | [H1 H2]]; [right; auto | subst; left; reflexivity].
+  - apply (PW_insert _ (fun x => dict_get x (b_radj s)) (fun y x => In (x, y) (b_es s)) v u); auto.
+    + intros x _. rewrite dict_get_set, !dict_get_default. reflexivity.
+    + intros a b. cbn [In]. split.
+      * intros [H | H]; [inversion H; subst; right; split; reflexivity | left; auto].
+      * intros [H | [H1 H2]]; [right; auto | subst; left; reflexivity].
+Qed.
+
+Lemma b_step_ok s o : b_inv s ->
+  b_inv (fst (b_step s o)) /\
+  b_abs (fst (b_step s o)) = fst (a_step KBipartite (b_abs s) o) /\
+  snd (b_step s o) = snd (a_step KBipartite (b_abs s) o).
+Proof.
+  intros I. destruct o as [u v | u v | k | l]; cbn [b_step a_step a_remove a_raise fst snd]; auto.
+  - destruct (b_add_edge_ok s u v I) as [H1 [H2 [H3 _]]]. auto.
+  - apply (add_from_refines b_inv b_abs KBipartite b_add_edge); auto.
+    intros s0 u v I0. destruct (b_add_edge_ok s0 u v I0) as [H1 [H2 [H3 _]]]. auto.
+Qed.
+
+Lemma b_step_outcome s o : b_inv s ->
+  match o with
+  | RemoveEdge _ _ | RaiseN _ => b_step s o = (s, NoMethod)
+  | _ => snd (b_step s o) = Ok \/ snd (b_step s o) = ValueError
+  end.
+Proof.
+  intros I. destruct o as [u v | u v | k | l]; cbn [b_step]; auto.
+  - destruct (b_add_edge_ok s u v I) as [_ [_ [_ [H | H]]]]; [auto | rewrite H; auto].
+  - revert s I. induction l as [| [u v] r IH]; intros s I; cbn [add_from]; [auto |].
+    destruct (b_add_edge_ok s u v I) as [I' [_ [_ [H | H]]]].
+    + destruct (b_add_edge s u v) as [s' o]. cbn [fst snd] in *. subst o. apply IH; auto.
+    + rewrite H. auto.
+Qed.
+
+Lemma b_step_error s o : b_inv s -> snd (b_step s o) <> Ok ->
+  (forall l, o <> AddEdgesFrom l) -> fst (b_step s o) = s.
+Proof.
+  intros I Hne Hno. destruct o as [u v | u v | k | l]; cbn [b_step fst] in *; auto.
+  - destruct (b_add_edge_ok s u v I) as [_ [_ [_ [H | H]]]]; [congruence | rewrite H; reflexivity].
+  - exfalso. apply (Hno l). reflexivity.
+Qed.
+
+Lemma b_add_from_refused s l1 u v l2 : b_inv s ->
+  snd (add_from b_add_edge s l1) = Ok ->
+  b_valid (fst (add_from b_add_edge s l1)) u v = false ->
+  add_from b_add_edge s (l1 ++ (u, v) :: l2) = (fst (add_from b_add_edge s l1), ValueError).
+Proof.
+  intros I H1 Hv. rewrite add_from_app by auto. cbn [add_from].
+  unfold b_add_edge at 1. rewrite Hv. reflexivity.
+Qed.
+
+Lemma b_run_ok ops : forall s, b_inv s ->
+  b_inv (b_run s ops) /\ b_abs (b_run s ops) = a_run KBipartite (b_abs s) ops /\
+  outcomes b_step s ops = outcomes (a_step KBipartite) (b_abs s) ops.
+Proof.
+  induction ops as [| o r IH]; intros s I; [cbn; auto |].
+  destruct (b_step_ok s o I) as [H1 [H2 H3]].
+  destruct (IH (fst (b_step s o)) H1) as [J1 [J2 J3]].
+  split; [exact J1 | split].
+  - change (b_abs (b_run (fst (b_step s o)) r) = a_run KBipartite (fst (a_step KBipartite (b_abs s) o)) r).
+    rewrite <- H2. exact J2.
+  - cbn [outcomes]. rewrite H3, J3, H2. reflexivity.
+Qed.
+
+(* ---- views *)
+Lemma b_view_count s : b_number_of_edges s = Z.of_nat (length (a_E (b_abs s))).
+Proof. reflexivity. Qed.
+
+Lemma b_view_order s : b_l s + b_r s = a_n (b_abs s) + a_r (b_abs s).
+Proof. reflexivity. Qed.
+
+Lemma b_view_has s u v : b_has_edge s u v = a_has KBipartite (b_abs s) u v.
+Proof. reflexivity. Qed.
+
+Lemma flat_map_ext_in' {A B} (f g : A -> list B) l : (forall x, In x l -> f x = g x) -> flat_map f l = flat_map g l.
+Proof.
+  intros H. induction l as [| a t IH]; [reflexivity |]. cbn [flat_map].
+  rewrite H by (left; auto). rewrite IH; auto. intros x Hx. apply H. right; auto.
+Qed.
+
+Lemma b_edges_eq s : b_edges s = flat_map (fun u => map (pair u) (dict_get u (b_ladj s))) (zrange 1 (b_l s + 1)).
+Proof.
+  unfold b_edges. apply flat_map_ext_in'. intros u Hu. apply zrange_In in Hu.
+  unfold b_right_neighbors. replace (between 1 u (b_l s)) with true; [reflexivity |].
+  unfold between. lia.
+Qed.
+
+Lemma b_view_edges s : b_inv s ->
+  lex_sorted (b_edges s) /\ forall e, In e (b_edges s) <-> In e (a_E (b_abs s)).
+Proof.
+  intros I. pose proof (bi_ladj s I) as Il. rewrite b_edges_eq. split.
+  - apply (lex_sorted_flat_map (fun u => dict_get u (b_ladj s))).
+    + apply zrange_sorted.
+    + intros u _. apply (Il u); trivial.
+  - intros [x y]. cbn [b_abs a_E]. rewrite (in_flat_map_pair (fun u => dict_get u (b_ladj s))), zrange_In. split.
+    + intros [Hx Hy]. apply (Il x); auto.
+    + intros Hin. destruct (bi_range s I x y Hin) as [Hx Hy]. split; [lia |]. apply (Il x); auto.
+Qed.
+
+Lemma b_view_right_neighbors s u : b_inv s ->
+  match b_right_neighbors s u with
+  | None => ~ (1 <= u <= b_l s)
+  | Some l => 1 <= u <= b_l s /\ sorted l /\ (forall v, In v l <-> a_has KBipartite (b_abs s) u v = true) /\
+              b_right_degree s u = Some (Z.of_nat (length l))
+  end.
+Proof.
+  intros I. unfold b_right_degree, b_right_neighbors. destruct (between 1 u (b_l s)) eqn:B.
+  - assert (Hu : 1 <= u <= b_l s) by (unfold between in B; lia).
+    destruct (bi_ladj s I u) as [Hs Hin]; [trivial |].
+    split; [auto | split; [auto | split; [| reflexivity]]].
+    intros v. rewrite Hin. unfold a_has. cbn [a_norm b_abs a_E]. symmetry. apply set_mem_In.
+  - unfold between in B. lia.
+Qed.
+
+Lemma b_view_left_neighbors s v : b_inv s ->
+  match b_left_neighbors s v with
+  | None => ~ (1 <= v <= b_r s)
+  | Some l => 1 <= v <= b_r s /\ sorted l /\ (forall u, In u l <-> a_has KBipartite (b_abs s) u v = true) /\
+              b_left_degree s v = Some (Z.of_nat (length l))
+  end.
+Proof.
+  intros I. unfold b_left_degree, b_left_neighbors. destruct (between 1 v (b_r s)) eqn:B.
+  - assert (Hv : 1 <= v <= b_r s) by (unfold between in B; lia).
+    destruct (bi_radj s I v) as [Hs Hin]; [trivial |].
+    split; [auto | split; [auto | split; [| reflexivity]]].
+    intros u. rewrite Hin. unfold a_has. cbn [a_norm b_abs a_E]. symmetry. apply set_mem_In.
+  - unfold between in B. lia.
+Qed.
+
+Lemma b_duplicate_noop s u v : b_has_edge s u v = true -> b_valid s u v = true -> b_add_edge s u v = (s, Ok).
+Proof. intros H V. unfold b_add_edge. rewrite V. cbn [negb]. unfold b_has_edge in H. rewrite H. reflexivity. Qed.
+
+Lemma b_views_determined s1 s2 : b_inv s1 -> b_inv s2 -> b_l s1 = b_l s2 -> b_r s1 = b_r s2 ->
+  (forall e, In e (a_E (b_abs s1)) <-> In e (a_E (b_abs s2))) -> b_view s1 = b_view s2.
+Proof.
+  intros I1 I2 Hl Hr HE.
+  assert (Hhas : forall u v, a_has KBipartite (b_abs s1) u v = a_has KBipartite (b_abs s2) u v).
+  { intros u v. unfold a_has. apply bool_eq_iff. rewrite !set_mem_In. apply HE. }
+  assert (Hrn : forall u, b_right_neighbors s1 u = b_right_neighbors s2 u).
+  { intros u. pose proof (b_view_right_neighbors s1 u I1) as N1. pose proof (b_view_right_neighbors s2 u I2) as N2.
+    unfold b_right_neighbors in *. rewrite <- Hl in *.
+    destruct (between 1 u (b_l s1)); [| auto].
+    destruct N1 as [_ [S1 [M1 _]]]. destruct N2 as [_ [S2 [M2 _]]]. f_equal.
+    apply sorted_unique; auto. intros v. rewrite M1, M2, Hhas. tauto. }
+  assert (Hln : forall u, b_left_neighbors s1 u = b_left_neighbors s2 u).
+  { intros u. pose proof (b_view_left_neighbors s1 u I1) as N1. pose proof (b_view_left_neighbors s2 u I2) as N2.
+    unfold b_left_neighbors in *. rewrite <- Hr in *.
+    destruct (between 1 u (b_r s1)); [| auto].
+    destruct N1 as [_ [S1 [M1 _]]]. destruct N2 as [_ [S2 [M2 _]]]. f_equal.
+    apply sorted_unique; auto. intros v. rewrite M1, M2, Hhas. tauto. }
+  unfold b_view. rewrite <- Hl, <- Hr.
+  f_equal.
+  - unfold b_number_of_edges. f_equal.
+    apply NoDup_same_length; try (apply bi_nodup; auto). exact HE.
+  - destruct (b_view_edges s1 I1) as [S1 M1]. destruct (b_view_edges s2 I2) as [S2 M2].
+    apply lex_sorted_unique; auto. intros e. rewrite M1, M2. apply HE.
+  - apply map_ext_in'. intros u _. apply map_ext_in'. intros v _. apply Hhas.
+  - apply map_ext_in'. intros u _. apply Hrn.
+  - apply map_ext_in'. intros u _. apply Hln.
+  - apply map_ext_in'. intros u _. unfold b_right_degree. rewrite Hrn. reflexivity.
+  - apply map_ext_in'. intros u _. unfold b_left_degree. rewrite Hln. reflexivity.
+Qed.
